@@ -98,6 +98,7 @@ def build_measurement(measurementspec, modifiertypes):
     # and to additionally extract the luminosity information
     fixed_params = []
     lumi = 1.0
+    # absolute uncertainty on the luminosity, HistFactory wants it relative
     lumierr = 0.0
     for parameter in config['parameters']:
         if parameter.get('fixed', False):
@@ -117,7 +118,7 @@ def build_measurement(measurementspec, modifiertypes):
         "Measurement",
         Name=name,
         Lumi=str(lumi),
-        LumiRelErr=str(lumierr),
+        LumiRelErr=str(lumierr / lumi),
         ExportOnly=str(True),
     )
     poiel = ET.Element('POI')
